@@ -207,7 +207,8 @@ impl WindowSize {
             (WindowSize::Value(a), WindowSize::Mss(b)) => {
                 if let Some(mss_value) = mss {
                     if let Some(ratio_other) = a.checked_div(mss_value) {
-                        if *b as u16 == ratio_other {
+                        // an exact multiple only: 5841 is not `mss*4` for an MSS of 1460
+                        if *b as u16 == ratio_other && a.checked_rem(mss_value) == Some(0) {
                             debug!(
                                 "window size difference: a {}, b {} == ratio_other {}",
                                 a, b, ratio_other
